@@ -162,6 +162,7 @@ type rcase struct {
 	id                       string
 	kind                     string // R | S
 	cs, gc, to, slots, did   uint64
+	steady                   bool // a single in-order stream with gaps below the timeout: it must finalise
 	files                    []fileDef
 	streams                  []streamDef
 	ops                      []op
@@ -271,6 +272,9 @@ func parseStream(v string) streamDef {
 func (c *rcase) String() string {
 	var b strings.Builder
 	fmt.Fprintf(&b, "%s %s cs=%d gc=%d to=%d slots=%d did=%d", c.id, c.kind, c.cs, c.gc, c.to, c.slots, c.did)
+	if c.steady {
+		b.WriteString(" steady=1")
+	}
 	for i, f := range c.files {
 		if c.kind == "S" {
 			fmt.Fprintf(&b, " F%d=%s@%s", i, hexs(f.path), f.desc)
@@ -318,6 +322,8 @@ func parseCase(line string) *rcase {
 			c.slots = u64(v)
 		case k == "did":
 			c.did = u64(v)
+		case k == "steady":
+			c.steady = v == "1"
 		case k[0] == 'F':
 			fd := fileDef{}
 			if j := strings.IndexByte(v, '@'); j >= 0 {
